@@ -38,6 +38,14 @@ def bounds(tier):
 
 
 # 4-attribute structures whose junction tree branches (the depth-first clique order backtracks)
+# five attributes: a chordless 5-cycle (needs fill-in between fill-in neighbours), a 4-clique chain (out-of-clique queries far from the root)
+ATTRS5 = ['A', 'B', 'C', 'D', 'E']
+SIZES5 = [2, 2, 3, 2, 2]
+STRUCTS5 = [
+    (('A', 'B'), ('B', 'C'), ('C', 'D'), ('D', 'E'), ('E', 'A')),
+    (('A', 'B'), ('B', 'C'), ('C', 'D'), ('D', 'E')),
+    (('A', 'B'), ('B', 'C'), ('C', 'D'), ('D', 'E'), ('E', 'A'), ('C',)),
+]
 STRUCTS4 = [
     (('A', 'B', 'C'), ('A', 'D')),
     (('A', 'B'), ('A', 'D'), ('B', 'C')),
@@ -59,7 +67,7 @@ def all_structs():
 def jobs(tier, seed):
     st = all_structs()
     idx = range(len(st)) if tier == 'thorough' else sorted(set([0, 1, 2] + list(range(3, len(st), 5))))
-    return [{'si': si, 'seed': seed} for si in idx] + [{'witness': 'F13', 'seed': seed}] + [{'si': 1000 + i, 'seed': seed} for i in range(len(STRUCTS4))]
+    return [{'si': si, 'seed': seed} for si in idx] + [{'witness': 'F13', 'seed': seed}] + [{'si': 1000 + i, 'seed': seed} for i in range(len(STRUCTS4))] + [{'si': 2000 + i, 'seed': seed} for i in range(len(STRUCTS5))]
 
 
 def coherence_failures(model, attrs, sizes, maxlen=2, tol_r=1e-7, tol_a=1e-9):
@@ -111,7 +119,9 @@ def run_one(si, total, engine, iters, zero, kind, seed, opt=None):
     from mbi import Domain, FactoredInference
     M.deterministic_eigsh()
     attrs, sizes = M.ATTRS3, M.SIZES3
-    if si >= 1000:
+    if si >= 2000:
+        attrs, sizes, struct = ATTRS5, SIZES5, STRUCTS5[si - 2000]
+    elif si >= 1000:
         attrs, sizes, struct = M.ATTRS4, M.SIZES4, STRUCTS4[si - 1000]
     else:
         struct = all_structs()[si]
